@@ -4,7 +4,7 @@ change from /tmp/seed-<P>/<n> into /verif/seeded/<name>/ with meta.json."""
 import json, os, shutil, sys
 P, n, name = sys.argv[1:4]
 ran = sys.argv[4] if len(sys.argv) > 4 else ''
-src = f'/tmp/seed-{P}/{n}'
+src = f'{os.environ.get("SEEDROOT", "/tmp/seed")}-{P}/{n}'
 dst = f'/verif/seeded/{name}'
 os.makedirs(dst, exist_ok=True)
 for f in ('patch.diff', 'demo.py', 'notes.txt'):
